@@ -18,7 +18,8 @@ ANCHORS = ("ladim/tracker.py", "ladim/analytical.py")
 RULE = ("three kinds of seeded cases: (step) whole-model runs on ROMS-file worlds, diffusion off; before every "
         "Tracker.update a monitor computes, with the forcing's own public velocity() at the stage positions and "
         "fractional times and the ground-truth local spacing dx, dy, the displacement of every named tableau of the "
-        "selected order (EF; midpoint/Heun/Ralston; classical RK4/3-8 rule) and the step must match one of them; "
+        "selected order (EF; midpoint/Heun/Ralston; classical RK4/3-8 rule) and the step must match one of them; the "
+        "matching tableau fed with the ground-truth forcing (reference interpolation) must give the same step too; "
         "(order) analytic rotating/shear flows with time-modulated rate and anisotropic spacing, run at dt, dt/2, "
         "dt/4 against the exact flow map, observed order >= nominal - 0.4; (helper) ladim.analytical.get_velocity1/2/4 "
         "driven by a user time loop, same order test. Non-trivial: >= 1 particle judged in open water with non-zero "
@@ -32,7 +33,7 @@ ASSUMPTIONS = ["a step whose stage positions leave the valid region, or that end
                "order is measured on three step sizes: shows 'not lower than', not the limit"]
 TIERS = {"quick": dict(runs=700, budget_s=50, shrink=150),
          "thorough": dict(runs=40000, budget_s=900, shrink=250)}
-REQUIRED_PROBES = ["step_EF", "step_RK2", "step_RK4", "order_EF", "order_RK2", "order_RK4", "helper",
+REQUIRED_PROBES = ["step_truth_judged", "step_EF", "step_RK2", "step_RK4", "order_EF", "order_RK2", "order_RK4", "helper",
                    "anisotropic_metric", "time_dependent"]
 NOMINAL = {"EF": 1, "RK2": 2, "RK4": 4}
 
@@ -168,7 +169,25 @@ def make_monitor(sc, store: dict):
         for name, tab in tabs.items():
             out[name] = refmodel.rk_displacement(vel, X, Y, Z, snap["step"], dt, dx, dy, tab)
         ef = refmodel.rk_displacement(vel, X, Y, Z, snap["step"], dt, dx, dy, refmodel.TABLEAUX["EF"]["euler"])
-        store[snap["step"]] = {"disp": out, "inside": inside.copy(), "ef": ef}
+        # the same step with the ground-truth forcing (reference interpolation in space and time): the
+        # velocity the forcing supplies is, by C02/C03, this one.  The level pair and weight are taken either
+        # at the start position for all stages or at each stage position (the statement leaves it open).
+        truth_disp = {}
+        try:
+            vert0 = ref.vertical(X, Y, Z)[:3]
+
+            def vel_fixed(xs, ys, zs, t):
+                return ref.velocity(np.clip(xs, xlo + 1e-6, xhi - 1e-6), np.clip(ys, ylo + 1e-6, yhi - 1e-6), zs, t, vert=vert0)
+
+            def vel_own(xs, ys, zs, t):
+                return ref.velocity(np.clip(xs, xlo + 1e-6, xhi - 1e-6), np.clip(ys, ylo + 1e-6, yhi - 1e-6), zs, t)
+
+            for name, tab in tabs.items():
+                truth_disp[name] = [refmodel.rk_displacement(vf, X, Y, Z, snap["step"], dt, dx, dy, tab)
+                                    for vf in (vel_fixed, vel_own)]
+        except ValueError:
+            truth_disp = {}
+        store[snap["step"]] = {"disp": out, "inside": inside.copy(), "ef": ef, "truth": truth_disp, "dx": dx, "dy": dy}
 
     return monitor, ref
 
@@ -223,6 +242,22 @@ def execute_step(sc) -> Result:
                 res.add(Violation(f"C01.step.{scheme}", n, f"particle {p} from ({X0[p]:.5f},{Y0[p]:.5f})",
                                   f"moved to ({X1[p]:.9f},{Y1[p]:.9f})",
                                   f"({xe[p]:.9f},{ye[p]:.9f}) by {name} (closest tableau of the order)"))
+            elif exp.get("truth", {}).get(name) and ok.any():
+                # end to end: the same tableau fed with the ground-truth forcing
+                tolv = 2e-4 * ref.scale() * truth.dt_s(sc)
+                tx, ty = tolv / exp["dx"] + 1e-7, tolv / exp["dy"] + 1e-7
+                miss = None
+                okt = ok & ~ref.near_tie(X0, Y0)       # the own cell of a start position on a cell edge is a tie
+                for dXt, dYt in exp["truth"][name]:
+                    m = okt & ((np.abs(X1 - (X0 + dXt)) > tx) | (np.abs(Y1 - (Y0 + dYt)) > ty))
+                    miss = m if miss is None else miss & m
+                res.probes["step_truth_judged"] += 1
+                if miss is not None and miss.any():
+                    p = int(np.nonzero(miss)[0][0])
+                    dXt, dYt = exp["truth"][name][0]
+                    res.add(Violation(f"C01.step_truth.{scheme}", n, f"particle {p} from ({X0[p]:.5f},{Y0[p]:.5f})",
+                                      f"moved to ({X1[p]:.9f},{Y1[p]:.9f})",
+                                      f"({X0[p] + dXt[p]:.9f},{Y0[p] + dYt[p]:.9f}) by {name} in the ground-truth flow"))
         res.nontrivial = judged > 0 and (scheme == "EF" or distinguishing > 0)
         if res.nontrivial:
             res.probes[f"step_{scheme}"] += 1
